@@ -1,0 +1,32 @@
+//go:build verif
+
+package pilosa
+
+import "sync/atomic"
+
+// VerifResizeHook, when set (before any cluster is used), receives the events
+// of the resize protocol emitted by cluster.go at its linearization points:
+// the cluster (nil for events of a resizeJob, which carry the job id), a
+// process-wide sequence number taken at the point of the call (events that
+// describe a change are emitted under the lock that protects the change, so
+// the sequence is consistent with the lock order), the name of the point and
+// its arguments. Points named "gate:*" are emitted outside any lock, before a
+// step of the listener / job goroutine; a hook may block there to order that
+// step with respect to other events.
+var VerifResizeHook func(c interface{}, seq uint64, point string, kv ...interface{})
+
+var verifResizeSeq uint64
+
+func verifResizeEvent(c *cluster, point string, kv ...interface{}) {
+	if h := VerifResizeHook; h != nil {
+		var ci interface{}
+		if c != nil {
+			ci = c
+		}
+		h(ci, atomic.AddUint64(&verifResizeSeq, 1), point, kv...)
+	}
+}
+
+// VerifResizeClusterOf returns the value passed as `c` to VerifResizeHook for
+// events of this cluster.
+func (v *VerifResizeCluster) VerifResizeClusterOf() interface{} { return v.c }
